@@ -22,7 +22,8 @@ out = [
     "worktree (nothing of /verif): `patch.diff`, the author's `demo.py` (exit 0 on the unchanged tree, non-zero with the change),",
     "`meta.json` (author's description + what `tools/seeded.py` confirmed: demo both ways, the 82 tests pass with the change, and the",
     "exit code of the listed checks run with VERIF_REPO pointing at a patched scratch copy), and `caught-by-<pid>.json` (the shrunk replay).",
-    "None of these changes is ever committed to /repo.",
+    "None of these changes is ever committed to /repo. Every patch applies to /repo's current HEAD (`git -C /repo apply --check`); six patches",
+    "that edit the helper `_replace_jump_targets` were re-based by hand onto the later fix 8a2d47d (same mutation, new variable names) and re-confirmed.",
     "",
     "| id | property | change | needs | valid | checks | first signature |",
     "|---|---|---|---|---|---|---|",
